@@ -755,8 +755,10 @@ def _split_high_low(ax, c):
         return None
     high = {s_: k for s_, k in ax.co.items() if k % c == 0}
     low = {s_: k for s_, k in ax.co.items() if k % c != 0}
-    if not high or not low and ax.c0 % c == 0:
+    if not high:
         return None
+    if not low and ax.c0 % c == 0:
+        return Aff({s_: k // c for s_, k in high.items()}, ax.c0 // c), Aff({}, 0)     # exactly divisible
     k0, l0 = divmod(ax.c0, c)
     lo = hi = l0
     for s_, k in low.items():
@@ -773,8 +775,9 @@ def _split_high_low(ax, c):
 def _split_scaled(st, ax, c):
     """ax = H + g*y + L with c | coefficients of H, one atom y >= 0 whose coefficient g divides c (1 < g < c), and
     0 <= L < g in every state:  ax / c = H/c + y/(c/g),   ax % c = g*(y % (c/g)) + L"""
-    if ax is None or ax.mod or len(ax.co) < 2:
+    if ax is None or ax.mod or not ax.co:
         return None
+    k0, l0 = divmod(ax.c0, c)        # the constant contributes k0 to the quotient, l0 stays in the low part
     for y, g in ax.co.items():
         if g <= 1 or g >= c or c % g:
             continue
@@ -783,7 +786,16 @@ def _split_scaled(st, ax, c):
             continue
         H = {s_: k for s_, k in ax.co.items() if s_ != y and k % c == 0}
         L = {s_: k for s_, k in ax.co.items() if s_ != y and k % c != 0}
-        lo = hi = ax.c0
+        m0, l1 = divmod(l0, g) if not L else (0, l0)      # whole multiples of g in the constant move into y: g*y + l0 = g*(y + m0) + l1
+        if m0:
+            yl, yh = get_iv(st, y)
+            y2 = term_vid(st, ('Add', y, const_vid(m0)) if y <= const_vid(m0) else ('Add', const_vid(m0), y), yl + m0, yh + m0, Aff({y: 1}, m0))
+            GRANGE.setdefault(y2, (gy[0] + m0, gy[1] + m0))
+            qy, ry = divmod_vids(st, y2, c // g)
+            qa = aff_add(Aff({s_: k // c for s_, k in H.items()}, k0), aff_of(qy))
+            ra = aff_add(aff_scale(aff_of(ry), g), Aff({}, l1))
+            return qa, ra
+        lo = hi = l0
         okl = True
         for s_, k in L.items():
             gs = grange_of(s_)
@@ -795,8 +807,8 @@ def _split_scaled(st, ax, c):
         if not okl or lo < 0 or hi >= g:
             continue
         qy, ry = divmod_vids(st, y, c // g)
-        qa = aff_add(Aff({s_: k // c for s_, k in H.items()}, 0), aff_of(qy))
-        ra = aff_add(aff_scale(aff_of(ry), g), Aff(dict(L), ax.c0))
+        qa = aff_add(Aff({s_: k // c for s_, k in H.items()}, k0), aff_of(qy))
+        ra = aff_add(aff_scale(aff_of(ry), g), Aff(dict(L), l0))
         return qa, ra
     return None
 
@@ -811,6 +823,12 @@ def _reg_triple(x, c, q, r):
 def divmod_vids(st, x, c):
     """(q, r) vids with x = c*q + r (truncating); creates and relates them on first use"""
     got = DIVMOD.get((x, c))
+    ax = AFF.get(x)
+    if got is None and ax is not None and not ax.co and not ax.mod:
+        # the dividend is a known constant (an affine form without atoms): fold
+        n = ax.c0
+        qn = abs(n) // c * (1 if n >= 0 else -1)
+        return const_vid(qn), const_vid(n - c * qn)
     if got is not None:
         q, r = got
     else:
@@ -1058,6 +1076,13 @@ def divmod_euclid(st, x, c, force=False):
         TERM[r] = ('rem_euclid', x, cv)
         USERS.setdefault(x, []).extend([q, r])
         GRANGE[r] = (0, c - 1)
+        hl = _split_high_low(aff_of(x), c) if x in AFF else None
+        if hl is not None:
+            # x = high + low with c | high and 0 <= low < c in every state: the Euclidean quotient and remainder are exact affine forms
+            AFF[q], AFF[r] = hl
+            for a_, tgt in ((hl[0], q), (hl[1], r)):
+                for o in a_.co:
+                    USERS.setdefault(o, []).append(tgt)
         t = (x, c, q, r)
         DIVMOD[key] = (q, r)
         for v in {x, q, r}:
